@@ -3,7 +3,7 @@ SPECIFICATION Spec
 CONSTANTS
   Devs <- NoDevs
   Space = "t0"
-  Modes = {"E", "C"}
+  Modes = {"E"}
   EmitCases = FALSE
   PeekBudget = 0
 INVARIANTS Inv_Ctx Inv_End Inv_Conform
